@@ -130,6 +130,7 @@ type Machine struct {
 	timers    []*chanV
 	ptrIDs    map[*value]int
 	inInit    int
+	forkSites map[string]int
 	randDraws int
 	siteFn    string
 	resetEvery int
@@ -203,6 +204,9 @@ func (m *Machine) addPC(c *Term) {
 		return
 	}
 	m.pc = append(m.pc, c)
+	if len(m.pc) > 800 {
+		m.abort("path condition exceeds 800 literals (input-dependent loop?) at %s in %s", m.where(), m.curFn())
+	}
 }
 
 func (m *Machine) check(extra ...*Term) SatResult {
@@ -226,6 +230,9 @@ func (m *Machine) nextDecision(kind string, compute func() *decision) *decision 
 	d := compute()
 	d.kind = kind
 	d.site = m.where()
+	if len(d.alts) > 1 {
+		m.forkSites[kind+" "+d.site] += len(d.alts) - 1
+	}
 	m.log = append(m.log, d)
 	m.pos++
 	m.decisions++
@@ -574,13 +581,14 @@ type RunResult struct {
 	Truncated   bool
 	Samples     []map[string]interface{}
 	MaxSteps    int64
+	ForkSites   map[string]int
 }
 
 func NewMachine(prog *ssa.Program, solver *Solver, opts Options) *Machine {
 	return &Machine{prog: prog, solver: solver, opts: opts, baseOpts: opts,
 		inconcWhy: map[string]int{}, outWhy: map[string]int{}, reached: map[string]int{},
 		reachModel: map[string][]InputVal{}, funcs: map[*ssa.Function]int{}, opaqueCalls: map[string]int{},
-		knownSupp: map[string]int{}}
+		knownSupp: map[string]int{}, forkSites: map[string]int{}}
 }
 
 // Explore runs fn (a niladic harness function) over all paths.
@@ -638,7 +646,7 @@ func (m *Machine) Explore(fn *ssa.Function) *RunResult {
 		Decisions: m.decisions, Violations: m.violations, Reached: m.reached, ReachModel: m.reachModel,
 		Obligations: m.obligations, Discharged: m.discharged, Funcs: map[string]int{}, Opaque: m.opaqueCalls,
 		Solver: m.solver.Stats(), Wall: time.Since(m.start).Seconds(), Truncated: truncated,
-		Samples: m.samples, MaxSteps: m.maxSteps}
+		Samples: m.samples, MaxSteps: m.maxSteps, ForkSites: m.forkSites}
 	for f, n := range m.funcs {
 		res.Funcs[f.String()] = n
 	}
